@@ -100,7 +100,7 @@ def one_case(cid, pkey, rng):
             pass
         pc0 = int(prot.progeny_counter); fc0 = int(prot.family_counter)
     before = snapshot(pg)
-    c = {"id": cid, "proto": pkey, "xconfig": xconfig.tolist(), "nm": nmv, "np": npv, "nself": nself, "xo": xcls,
+    c = {"id": cid, "kind": "call", "proto": pkey, "xconfig": xconfig.tolist(), "nm": nmv, "np": npv, "nself": nself, "xo": xcls,
          "pc0": pc0, "fc0": fc0, "exc": None, "ntaxa": ntaxa,
          "nm_is_array": not isinstance(nm_arg, int), "np_is_array": not isinstance(np_arg, int), "warm": warm}
     try:
@@ -132,6 +132,39 @@ def one_case(cid, pkey, rng):
     return c
 
 
+def bulk_case(cid, pkey, rng):
+    """one large mate() call: implementations that process gametes or loci in blocks must be right across block seams"""
+    import importlib
+    cls_name, npar = PROTOS[pkey]
+    cls = getattr(importlib.import_module("pybrops.breed.prot.mate." + cls_name), cls_name)
+    nvrnt = rng.choice([420, 500, 610]); nprog = rng.choice([400, 650, 900])
+    # recombination only at a few places: chromosome starts and a handful of loci; everywhere else exactly 0
+    xcls = [0] * nvrnt
+    for l in range(0, nvrnt, rng.choice([60, 97, 140])):
+        xcls[l] = 1
+    for l in rng.sample(range(nvrnt), 6):
+        xcls[l] = rng.choice([1, 2])
+    xoprob = [{0: 0.0, 1: 0.5, 2: 1.0}[v] for v in xcls]
+    pg = make_parents(npar + 1, nvrnt, xoprob, rng)
+    row = rng.sample(range(npar + 1), npar)
+    nself = rng.choice([0, 0, 1, 2])
+    gen = np.random.default_rng(rng.randrange(2 ** 32)) if rng.random() < 0.5 else np.random.RandomState(rng.randrange(2 ** 32))
+    c = {"id": cid, "kind": "bulk", "proto": pkey, "xconfig": [row], "nself": nself, "xo": xcls, "nexp": nprog, "exc": None}
+    try:
+        with time_limit(120):
+            nm, npg = (1, nprog) if rng.random() < 0.5 else (nprog, 1)
+            out = cls(progeny_counter=0, family_counter=0, rng=gen).mate(pg, np.array([row], dtype="int64"), nm, npg, nself=nself)
+        m = np.asarray(out.mat)
+        c["nprog"] = int(m.shape[1])
+        c["tags0"] = sorted(int(x) for x in np.unique(m[0])); c["tags1"] = sorted(int(x) for x in np.unique(m[1]))
+        sw = np.any(m[:, :, 1:] != m[:, :, :-1], axis=(0, 1))
+        c["switch"] = [int(l) + 2 for l in np.flatnonzero(sw)]
+        c["dhhet"] = int(np.sum(np.any(m[0] != m[1], axis=1)))
+    except Exception as e:
+        c.update(exc="%s: %s" % (type(e).__name__, e), nprog=0, tags0=[], tags1=[], switch=[], dhhet=0)
+    return c
+
+
 def run(ctx):
     rng = random.Random(ctx.seed)
     thorough = ctx.tier == "thorough"
@@ -157,8 +190,16 @@ def run(ctx):
     keys = list(PROTOS)
     for t in range(n):
         allc.append(one_case(t + 1, keys[t % len(keys)], rng))
-    verd = cases.validate(ctx, "Mating_Trace", "Mating_Trace.cfg", allc, "Mating_Trace", chunk=120, procs=14)
-    ctx.traces += len(allc)
+    bulk = [bulk_case(len(allc) + 1 + t, keys[t % len(keys)], rng) for t in range(28 if thorough else 14)]
+    verd = cases.validate(ctx, "Mating_Trace", "Mating_Trace.cfg", allc + bulk, "Mating_Trace", chunk=120, procs=14)
+    ctx.traces += len(allc) + len(bulk)
+    for c in bulk:
+        v = verd[c["id"]]
+        ctx.count(1, repr({k: c[k] for k in ("proto", "xconfig", "nself", "nexp")} | {"nvrnt": len(c["xo"])}))
+        if v != "ok":
+            ctx.violation("%s.mate:%s:large-call" % (PROTOS[c["proto"]][0], v),
+                          "TLC verdict %s on a %d x %d call%s" % (v, c["nexp"], len(c["xo"]), (" (" + c["exc"] + ")") if c["exc"] else ""),
+                          {k: c[k] for k in c if k != "xo"})
     for c in allc:
         v = verd[c["id"]]
         nt = len({tuple(r_) for r_ in c["xconfig"]}) > 1 or c["nm_is_array"] or c["np_is_array"]
